@@ -77,9 +77,9 @@ theorem scanSkipSpace_lowerHex (c : Char) (r : Str) (h : isLowerHex c = true) : 
     omega
   simp [scanSkipSpace, h1, h2]
 
-theorem parseBits256Scan_print (bs : List UInt8) (h : bs.length = 32) :
-    parseBits256Scan (printBitsN bs) = .ok bs := by
-  unfold parseBits256Scan printBitsN quote
+theorem parseBits256ScanR_print (bs : List UInt8) (h : bs.length = 32) :
+    parseBits256ScanR (printBitsN bs) = .ok bs := by
+  unfold parseBits256ScanR printBitsN quote
   rw [List.cons_append]
   match hh : hexLower bs with
   | [] =>
@@ -96,6 +96,17 @@ theorem parseBits256Scan_print (bs : List UInt8) (h : bs.length = 32) :
       | cons _ _ => rfl
     simp [hne, h]
 
+theorem parseBits256Scan_print (bs : List UInt8) (h : bs.length = 32) :
+    parseBits256Scan (printBitsN bs) = .ok bs := by
+  unfold parseBits256Scan
+  rw [utf8Decode_ascii, parseBits256ScanR_print bs h]
+  intro c hc
+  simp only [printBitsN, quote, List.mem_append, List.mem_cons, List.not_mem_nil, or_false] at hc
+  rcases hc with (rfl | hc) | rfl
+  · decide
+  · exact lowerHex_ascii c (hexLower_chars bs c hc)
+  · decide
+
 /-! ### tl.Int256 through json.Unmarshal into a string -/
 
 theorem trimWs_quote (s : Str) : trimWs (quote s) = quote s := by
@@ -107,38 +118,47 @@ theorem trimWs_quote (s : Str) : trimWs (quote s) = quote s := by
 
 theorem unescape_no_backslash (s : Str) (h : ∀ c ∈ s, c ≠ '\\') : unescape s = s := by
   induction s with
-  | nil => rfl
+  | nil => rw [unescape]
   | cons c r ih =>
     have hc : c ≠ '\\' := h c (by simp)
     have ih' := ih (fun x hx => h x (by simp [hx]))
-    unfold unescape
-    split
-    · rename_i heq; cases heq
-    · rename_i heq; simp only [List.cons.injEq] at heq; exact absurd heq.1 hc
-    · rename_i heq; simp only [List.cons.injEq] at heq; exact absurd heq.1 hc
-    · rename_i heq
-      simp only [List.cons.injEq] at heq
-      obtain ⟨h1, h2⟩ := heq
-      subst h1; subst h2
-      rw [ih']
+    rw [unescape]
+    · rw [ih']
+    all_goals (intros; rename_i hh _; exact absurd hh hc)
 
-theorem unmarshalString_quote (s : Str) (hs : ∀ c ∈ s, isSafe c = true) : unmarshalString (quote s) = .ok s := by
+theorem utf8Encode_ascii (s : Str) (h : ∀ c ∈ s, isAscii c = true) : utf8Encode s = s := by
+  induction s with
+  | nil => rfl
+  | cons c r ih =>
+    have hc : c.toNat < 0x80 := by simpa [isAscii] using h c (by simp)
+    have e : utf8EncodeRune c.toNat = [c] := by
+      have h1 : ¬ ((0xD800 ≤ c.toNat ∧ c.toNat ≤ 0xDFFF) ∨ 0x10FFFF < c.toNat) := by omega
+      simp only [utf8EncodeRune, h1, if_false, hc, if_true, Char.ofNat_toNat]
+    simp only [utf8Encode, List.flatMap_cons, e] at ih ⊢
+    rw [ih (fun x hx => h x (by simp [hx]))]
+    rfl
+
+theorem goUnquote_plain (s : Str) (hs : ∀ c ∈ s, isSafe c = true) (ha : ∀ c ∈ s, isAscii c = true) : goUnquote s = s := by
+  unfold goUnquote
+  rw [unescape_no_backslash, utf8Decode_ascii s ha, utf8Encode_ascii s ha]
+  intro c hc
+  have := hs c hc
+  simp only [isSafe, Bool.and_eq_true, bne_iff_ne, ne_eq, decide_eq_true_eq] at this
+  exact this.1.2
+
+theorem unmarshalString_quote (s : Str) (hs : ∀ c ∈ s, isSafe c = true) (ha : ∀ c ∈ s, isAscii c = true) :
+    unmarshalString (quote s) = .ok s := by
   unfold unmarshalString
   rw [valid_quote s hs, trimWs_quote]
   simp only [Bool.not_true, Bool.false_eq_true, if_false]
   unfold quote
   rw [List.cons_append]
   simp only [List.dropLast_concat]
-  congr 1
-  apply unescape_no_backslash
-  intro c hc
-  have := hs c hc
-  simp only [isSafe, Bool.and_eq_true, bne_iff_ne, ne_eq, decide_eq_true_eq] at this
-  exact this.1.2
+  rw [goUnquote_plain s hs ha]
 
 theorem parseInt256_print (bs : List UInt8) (h : bs.length = 32) : parseInt256 (printInt256 bs) = .ok bs := by
   unfold parseInt256 printInt256
-  rw [unmarshalString_quote _ (hexLower_safe bs)]
+  rw [unmarshalString_quote _ (hexLower_safe bs) (fun c hc => lowerHex_ascii c (hexLower_chars bs c hc))]
   simp [decodeChars_hexLower, h]
 
 /-! ### totality (no panic) of the scalar parsers -/
@@ -199,8 +219,8 @@ theorem scanHexPairs_total (s : Str) : (scanHexPairs s).isPanic = false := by
           · rfl
           · rename_i e he; rw [he] at ihr; cases ihr
 
-theorem total_parseBits256Scan (p : Str) : (parseBits256Scan p).isPanic = false := by
-  unfold parseBits256Scan
+theorem total_parseBits256ScanR (p : Str) : (parseBits256ScanR p).isPanic = false := by
+  unfold parseBits256ScanR
   split
   · rename_i r
     have h1 := scanSkipSpace_total r
@@ -220,6 +240,9 @@ theorem total_parseBits256Scan (p : Str) : (parseBits256Scan p).isPanic = false 
     · rfl
     · rename_i e he; rw [he] at h1; cases h1
   · rfl
+
+theorem total_parseBits256Scan (p : Str) : (parseBits256Scan p).isPanic = false :=
+  total_parseBits256ScanR _
 
 theorem unmarshalString_total (p : Str) : (unmarshalString p).isPanic = false := by
   unfold unmarshalString
